@@ -13,7 +13,7 @@ Record entry_ok (e : entry) : Prop := {
   eo_perm : 0 <= e_perm e < 16777216;
   eo_name : clean (e_name e) <> [];
   eo_reg : e_type e = TReg ->
-           0 <= e_size e /\ e_choff e = 0 /\ (e_chsize e = 0 \/ e_chsize e = e_size e) /\ digest_ok e
+           0 <= e_size e /\ e_choff e = 0 /\ (e_chsize e = 0 \/ e_chsize e = e_size e)
            /\ (e_size e = 0 -> e_off e = 0);
   eo_nonreg : e_type e <> TReg -> e_off e = 0
 }.
@@ -381,7 +381,7 @@ Lemma d_add_chunk_nodes : forall s e cs id n, ds_last s = Some id -> nth_error (
   etype_eqb (e_type e) TChunk = false ->
   ds_nodes (d_add_chunk s e cs) =
     if etype_eqb (e_type e) TReg && (e_size e >? 0)
-    then upd (ds_nodes s) id (DN (dn_b n) (dn_ch n) (dn_chunks n ++ [CH (e_choff e) cs (e_cdg e) (e_off e)]))
+    then upd (ds_nodes s) id (DN (dn_b n) (dn_ch n) (dn_chunks n ++ [CH (e_choff e) cs (mem_dg e) (e_off e)]))
     else ds_nodes s.
 Proof.
   intros s e cs id n Hl Hn Hc. unfold d_add_chunk. rewrite Hc, andb_false_l, orb_false_r.
@@ -693,7 +693,7 @@ Record show_ok (e : entry) : Prop := {
   so_type : okt (e_type e) = true;
   so_perm : 0 <= e_perm e < 16777216;
   so_reg : e_type e = TReg ->
-           0 <= e_size e /\ e_choff e = 0 /\ (e_chsize e = 0 \/ e_chsize e = e_size e) /\ digest_ok e
+           0 <= e_size e /\ e_choff e = 0 /\ (e_chsize e = 0 \/ e_chsize e = e_size e)
            /\ (e_size e = 0 -> e_off e = 0);
   so_nonreg : e_type e <> TReg -> e_off e = 0
 }.
@@ -719,7 +719,7 @@ Qed.
 
 Lemma single_conforming : forall e, show_ok e -> e_type e = TReg -> 0 < e_size e -> file_conforming e [].
 Proof.
-  intros e H Hr Hs. destruct (so_reg e H Hr) as [_ [H0 [Hc [Hd _]]]].
+  intros e H Hr Hs. destruct (so_reg e H Hr) as [_ [H0 [Hc _]]].
   assert (Hsz : mem_chsize e None = e_size e).
   { unfold mem_chsize. rewrite Hr. destruct Hc as [Hc|Hc]; rewrite Hc.
     - simpl. destruct (e_size e =? 0) eqn:E; [apply Z.eqb_eq in E; lia|reflexivity].
@@ -731,7 +731,6 @@ Proof.
   - simpl. split; [intros x []|exact I].
   - simpl. split; [|exact I]. rewrite Hsz, H0. lia.
   - constructor; [|constructor]. simpl. rewrite Hsz. exact Hs.
-  - constructor; [exact Hd|constructor].
 Qed.
 
 Section Walks.
@@ -770,7 +769,7 @@ Section Walks.
     - rewrite Hb. symmetry. apply codec_norm.
     - destruct (etype_eqb (e_type e) TReg) eqn:Er.
       + assert (Hr : e_type e = TReg) by (destruct (e_type e); simpl in Er; congruence).
-        destruct (so_reg e Hs Hr) as [Hs0 [_ [_ [_ Hoff]]]].
+        destruct (so_reg e Hs Hr) as [Hs0 [_ [_ Hoff]]].
         destruct (e_size e >? 0) eqn:Eg; simpl.
         * unfold read_chunks. simpl. reflexivity.
         * rewrite Z.gtb_ltb in Eg. apply Z.ltb_ge in Eg. apply Hoff. lia.
@@ -780,7 +779,7 @@ Section Walks.
       apply map_ext_in. intros off Hin. rewrite Forall_forall in Hprobes. pose proof (Hprobes off Hin) as Hoff.
       unfold mem_chunk_at. rewrite Hn. fold e. rewrite Er. simpl negb. cbv iota.
       unfold chunks_of. simpl pfind. simpl length. simpl Nat.ltb. cbv iota.
-      destruct (so_reg e Hs Hr) as [Hs0 [H0 [Hcs [Hd _]]]].
+      destruct (so_reg e Hs Hr) as [Hs0 [H0 [Hcs _]]].
       destruct (e_size e >? 0) eqn:Eg; simpl andb; cbv iota.
       * rewrite Z.gtb_ltb in Eg. apply Z.ltb_lt in Eg.
         pose proof (chunk_lookup_agree e [] off (single_conforming e Hs Hr Eg) Hoff) as Hagree.
@@ -823,7 +822,7 @@ End Walks.
 (* ---------- agreement of the two stores on simple TOCs ---------- *)
 
 Lemma stores_agree_simple : forall toc probes, simple_toc toc -> Forall (fun p => 0 <= p) probes ->
-  view_mem toc probes = view_db false toc probes /\ view_mem toc probes <> None.
+  view_mem toc probes = view_db toc probes /\ view_mem toc probes <> None.
 Proof.
   intros toc probes Hs Hp. destruct (builds_simple toc Hs) as [M [D [Hm [Hd HR]]]].
   unfold view_mem, view_db. rewrite Hm, Hd. rewrite (r_m _ _ _ _ HR). simpl pfind.
